@@ -39,6 +39,9 @@ def sh(cmd, cwd=None, env=None, timeout=3600):
     return p.returncode, p.stdout
 
 
+NETNS = subprocess.run("unshare -rn sh -c 'ip link set lo up'", shell=True, stdout=subprocess.DEVNULL, stderr=subprocess.DEVNULL).returncode == 0
+
+
 class Worktree:
     def __init__(self, patch=None):
         self.dir = tempfile.mkdtemp(prefix="seedwt-")
@@ -111,7 +114,11 @@ def verify(d):
         fcntl.flock(lock, fcntl.LOCK_EX)
         try:
             for _ in range(4):
-                rc, out = sh(["go", "test", "-vet=off", "-count=1", "./..."], cwd=w.dir, timeout=1800)
+                # in a private network namespace when the sandbox allows it: nobody else can hold the ports there
+                cmd = "go test -vet=off -count=1 ./..."
+                if NETNS:
+                    cmd = "unshare -rn sh -c 'ip link set lo up && %s'" % cmd
+                rc, out = sh(cmd, cwd=w.dir, timeout=1800)
                 if rc == 0 or "address already in use" not in out:
                     break
                 time.sleep(3)
